@@ -5,9 +5,12 @@ package auth
 import (
 	"context"
 	"encoding/json"
+	"sync/atomic"
 	"testing"
+	"time"
 
 	"github.com/alicebob/miniredis/v2"
+	"github.com/alicebob/miniredis/v2/server"
 	"github.com/gotid/god/internal/verifdrv"
 	"github.com/gotid/god/lib/store/redis"
 	"google.golang.org/grpc/codes"
@@ -19,9 +22,13 @@ import (
 // one Authenticator, a miniredis hash of app -> token, store outages, and calls.
 
 type verifC17Op struct {
-	Op    string `json:"op"` // set | del | down | up | call
-	App   string `json:"app"`
-	Token string `json:"token"`
+	// set | del | down | up | call | expire (the cached entry of app is dropped, as the expiry wheel's
+	// callback does: cache.Del) | burst (one concurrent Authenticate per element of tokens, all for app,
+	// overlapping: the store's HGET is held until every caller is on its way)
+	Op     string   `json:"op"`
+	App    string   `json:"app"`
+	Token  string   `json:"token"`
+	Tokens []string `json:"tokens"`
 }
 
 type verifC17Case struct {
@@ -50,6 +57,34 @@ func TestVerifDriverC17(t *testing.T) {
 			return map[string]any{"error": err.Error()}
 		}
 		codesSeen := []int{}
+		lookups := []int{}
+		// count the store lookups (HGET) and, during a burst, hold them on a gate
+		var hgets int32
+		var gate atomic.Value // chan struct{} or nil-channel
+		gate.Store((chan struct{})(nil))
+		hook := func(_ *server.Peer, cmd string, _ ...string) bool {
+			if cmd == "HGET" {
+				atomic.AddInt32(&hgets, 1)
+				if g := gate.Load().(chan struct{}); g != nil {
+					<-g
+				}
+			}
+			return false
+		}
+		mr.Server().SetPreHook(hook)
+		call := func(app, token string) int {
+			ctx := metadata.NewIncomingContext(context.Background(),
+				metadata.MD{appKey: []string{app}, tokenKey: []string{token}})
+			err := a.Authenticate(ctx)
+			if err == nil {
+				return int(codes.OK)
+			}
+			if st, ok := status.FromError(err); ok {
+				return int(st.Code())
+			}
+			return -1
+		}
+		hung := ""
 		for _, op := range c.Ops {
 			switch op.Op {
 			case "set":
@@ -66,23 +101,56 @@ func TestVerifDriverC17(t *testing.T) {
 					if err := mr.Restart(); err != nil {
 						return map[string]any{"error": "restart: " + err.Error()}
 					}
+					mr.Server().SetPreHook(hook) // Restart builds a new server
 					up = true
 				}
 			case "call":
-				ctx := metadata.NewIncomingContext(context.Background(),
-					metadata.MD{appKey: []string{op.App}, tokenKey: []string{op.Token}})
-				err := a.Authenticate(ctx)
-				code := int(codes.OK)
-				if err != nil {
-					if st, ok := status.FromError(err); ok {
-						code = int(st.Code())
-					} else {
-						code = -1
-					}
+				codesSeen = append(codesSeen, call(op.App, op.Token))
+			case "expire":
+				a.cache.Del(op.App)
+			case "burst":
+				n := len(op.Tokens)
+				before := atomic.LoadInt32(&hgets)
+				g := make(chan struct{})
+				gate.Store(g)
+				res := make([]int, n)
+				var done int32
+				fin := make(chan struct{})
+				for i := 0; i < n; i++ {
+					go func(i int) {
+						res[i] = call(op.App, op.Tokens[i])
+						if atomic.AddInt32(&done, 1) == int32(n) {
+							close(fin)
+						}
+					}(i)
 				}
-				codesSeen = append(codesSeen, code)
+				// every caller is on its way once it has finished (cached), holds a lookup, or waits for one:
+				// wait for the first lookup or completion, then give the others time to pile up (bounded)
+				deadline := time.Now().Add(2 * time.Second)
+				for atomic.LoadInt32(&hgets) == before && atomic.LoadInt32(&done) < int32(n) && time.Now().Before(deadline) {
+					time.Sleep(200 * time.Microsecond)
+				}
+				pile := time.Now().Add(40 * time.Millisecond)
+				for time.Now().Before(pile) && int(atomic.LoadInt32(&hgets)-before) < n && atomic.LoadInt32(&done) < int32(n) {
+					time.Sleep(500 * time.Microsecond)
+				}
+				gate.Store((chan struct{})(nil))
+				close(g)
+				select {
+				case <-fin:
+				case <-time.After(4 * time.Second):
+					hung = "burst: callers did not return"
+				}
+				if hung != "" {
+					break
+				}
+				codesSeen = append(codesSeen, res...)
+				lookups = append(lookups, int(atomic.LoadInt32(&hgets)-before))
+			}
+			if hung != "" {
+				break
 			}
 		}
-		return map[string]any{"codes": codesSeen}
+		return map[string]any{"codes": codesSeen, "lookups": lookups, "hung": hung}
 	})
 }
